@@ -884,6 +884,10 @@ private:
     constant_value m_element_sz;
     // precise array contents if no smashed
     offset_map_t m_offset_map;
+    // whether some array store was lost, i.e., the store was neither
+    // recorded in a cell nor in the smashed variable. If true then
+    // the parts of the array without a cell can have any value.
+    bool m_has_lost_stores;
 
     static bool consistent_offset(const offset_t &o, size_t elem_size) {
       if (o.is_negative()) {
@@ -974,6 +978,10 @@ private:
           }
           m_is_smashed = true;
           m_element_sz = elem_sz;
+          if (m_has_lost_stores) {
+            // the cells do not describe all the array contents
+            base_dom -= a;
+          }
         } else {
           base_dom -= a;
         }
@@ -990,24 +998,29 @@ private:
     }
 
   public:
-    array_state() : m_is_smashed(false), m_element_sz((int64_t)0) {}
+    array_state()
+        : m_is_smashed(false), m_element_sz((int64_t)0),
+          m_has_lost_stores(false) {}
 
-    array_state(bool &&is_smashed, constant_value &&sz, offset_map_t &&om)
+    array_state(bool &&is_smashed, constant_value &&sz, offset_map_t &&om,
+                bool has_lost_stores)
         : m_is_smashed(std::move(is_smashed)), m_element_sz(std::move(sz)),
-          m_offset_map(std::move(om)) {
+          m_offset_map(std::move(om)), m_has_lost_stores(has_lost_stores) {
       do_sanity_checks();
     }
 
     array_state(const array_state &o)
         : m_is_smashed(o.m_is_smashed), m_element_sz(o.m_element_sz),
-          m_offset_map(o.m_offset_map) {
+          m_offset_map(o.m_offset_map),
+          m_has_lost_stores(o.m_has_lost_stores) {
       do_sanity_checks();
     }
 
     array_state(const array_state &&o)
         : m_is_smashed(std::move(o.m_is_smashed)),
           m_element_sz(std::move(o.m_element_sz)),
-          m_offset_map(std::move(o.m_offset_map)) {
+          m_offset_map(std::move(o.m_offset_map)),
+          m_has_lost_stores(o.m_has_lost_stores) {
       do_sanity_checks();
     }
 
@@ -1016,6 +1029,7 @@ private:
         m_is_smashed = o.m_is_smashed;
         m_element_sz = o.m_element_sz;
         m_offset_map = o.m_offset_map;
+        m_has_lost_stores = o.m_has_lost_stores;
       }
       do_sanity_checks();
       return *this;
@@ -1026,6 +1040,7 @@ private:
         m_is_smashed = std::move(o.m_is_smashed);
         m_element_sz = std::move(o.m_element_sz);
         m_offset_map = std::move(o.m_offset_map);
+        m_has_lost_stores = o.m_has_lost_stores;
       }
       do_sanity_checks();
       return *this;
@@ -1041,17 +1056,20 @@ private:
         right.smash_array(v, get_element_sz(), cm_right, dom_right);
         return array_state(m_is_smashed | right.m_is_smashed,
                            m_element_sz | right.m_element_sz,
-                           m_offset_map | right.m_offset_map);
+                           m_offset_map | right.m_offset_map,
+                           m_has_lost_stores || o.m_has_lost_stores);
       } else if (!m_is_smashed && o.m_is_smashed) {
         array_state left(*this);
         left.smash_array(v, o.get_element_sz(), cm_left, dom_left);
         return array_state(left.m_is_smashed | o.m_is_smashed,
                            left.m_element_sz | o.m_element_sz,
-                           left.m_offset_map | o.m_offset_map);
+                           left.m_offset_map | o.m_offset_map,
+                           m_has_lost_stores || o.m_has_lost_stores);
       } else {
         return array_state(m_is_smashed | o.m_is_smashed,
                            m_element_sz | o.m_element_sz,
-                           m_offset_map | o.m_offset_map);
+                           m_offset_map | o.m_offset_map,
+                           m_has_lost_stores || o.m_has_lost_stores);
       }
     }
 
@@ -1064,22 +1082,26 @@ private:
         right.smash_array(v, get_element_sz(), cm_right, dom_right);
         return array_state(m_is_smashed & right.m_is_smashed,
                            m_element_sz & right.m_element_sz,
-                           m_offset_map & right.m_offset_map);
+                           m_offset_map & right.m_offset_map,
+                           m_has_lost_stores || o.m_has_lost_stores);
       } else if (!m_is_smashed && o.m_is_smashed) {
         array_state left(*this);
         left.smash_array(v, o.get_element_sz(), cm_left, dom_left);
         return array_state(left.m_is_smashed & o.m_is_smashed,
                            left.m_element_sz & o.m_element_sz,
-                           left.m_offset_map & o.m_offset_map);
+                           left.m_offset_map & o.m_offset_map,
+                           m_has_lost_stores || o.m_has_lost_stores);
       } else {
         return array_state(m_is_smashed & o.m_is_smashed,
                            m_element_sz & o.m_element_sz,
-                           m_offset_map & o.m_offset_map);
+                           m_offset_map & o.m_offset_map,
+                           m_has_lost_stores || o.m_has_lost_stores);
       }
     }
 
     bool operator==(const array_state &o) const {
-      if (m_is_smashed != o.m_is_smashed) {
+      if (m_is_smashed != o.m_is_smashed ||
+          m_has_lost_stores != o.m_has_lost_stores) {
         return false;
       }
       if (m_is_smashed) {
@@ -1110,6 +1132,10 @@ private:
     bool is_smashed() const { return m_is_smashed; }
 
     void set_smashed(bool v) { m_is_smashed = v; }
+
+    bool has_lost_stores() const { return m_has_lost_stores; }
+
+    void set_lost_stores(bool v) { m_has_lost_stores = v; }
 
     offset_map_t &get_offset_map() { return m_offset_map; }
 
@@ -1756,6 +1782,19 @@ public:
       CRAB_LOG("array-adaptive", array_adaptive_domain_t left(*this);
                array_adaptive_domain_t right(other);
                crab::outs() << "Check if " << left << " <= " << right << "\n");
+
+      // An array with lost stores in the left operand must have also
+      // lost stores in the right one. This cannot be seen in the base
+      // domain.
+      for (auto it = m_array_map.begin(), et = m_array_map.end(); it != et;
+           ++it) {
+        if (it->second.has_lost_stores()) {
+          const array_state *other_as = other.m_array_map.find(it->first);
+          if (other_as && !other_as->has_lost_stores()) {
+            return false;
+          }
+        }
+      }
 
       base_domain_t left_dom(m_base_dom);
       base_domain_t right_dom(other.m_base_dom);
@@ -2459,7 +2498,16 @@ public:
         // XXX: if we have a large array that is never smashed but we
         // do many reads with symbolic offsets then it might be better
         // to smash the array so that each read is cheaper.
-        if (crab_domain_params_man::get().array_adaptive_is_smashable()) {
+        if (as.has_lost_stores()) {
+          // Some store to the array was lost so the array segment
+          // being read might not be fully covered by the overlapping
+          // cells.
+          CRAB_LOG("array-adaptive",
+                   CRAB_WARN("array adaptive: ignored array load from ", a,
+                             " because non-constant array index ", i, "=", ii,
+                             " and some array store was lost"););
+        } else if (crab_domain_params_man::get()
+                       .array_adaptive_is_smashable()) {
           if (array_state::can_be_smashed(cells, e_sz, true)) {
             // we smash all overlapping cells into a temporary array
             // (summarized) variable
@@ -2609,7 +2657,9 @@ public:
                                     << "=" << m_base_dom << "\n";);
             }
 
-            if (found_cell_without_scalar) {
+            if (found_cell_without_scalar || next_as.has_lost_stores()) {
+              // if some store was lost then the cells do not describe
+              // all the array contents.
               m_base_dom -= a;
             } else {
               // Finally the array store
@@ -2669,6 +2719,9 @@ public:
               << "}\n";);
 
           kill_cells(a, cells, offset_map);
+          // The store is lost: remember it because the written cells
+          // might not exist in the offset map.
+          next_as.set_lost_stores(true);
         }
       }
       m_array_map.set(a, next_as);
@@ -2730,6 +2783,22 @@ public:
       array_store(a, elem_size, i, val, false);
       i = i + e_sz;
     }
+
+    if (e < *ub) {
+      // The stores at indexes greater than e are lost
+      const array_state &as = lookup_array_state(a);
+      if (!as.is_smashed()) {
+        array_state next_as(as);
+        offset_map_t &offset_map = next_as.get_offset_map();
+        std::vector<cell_t> cells;
+        offset_t o(static_cast<int64_t>(e + e_sz));
+        offset_map.get_overlap_cells(
+            o, (uint64_t) static_cast<int64_t>(*ub - e), cells);
+        kill_cells(a, cells, offset_map);
+        next_as.set_lost_stores(true);
+        m_array_map.set(a, next_as);
+      }
+    }
   }
 
   virtual void array_assign(const variable_t &lhs,
@@ -2767,7 +2836,8 @@ public:
 
       constant_value elem_sz = as.get_element_sz();
       m_array_map.set(
-          lhs, array_state(false, std::move(elem_sz), std::move(lhs_om)));
+          lhs, array_state(false, std::move(elem_sz), std::move(lhs_om),
+                           as.has_lost_stores()));
 
       CRAB_LOG(
           "array-adaptive-array-assign", crab::outs() << "array variables={";
